@@ -5,12 +5,12 @@
 // wrapped so that Traverse returns its segments in a per-case deterministic order (b6's basic world
 // orders them by Go map iteration). Lines:
 //
-//	world <kind> [points]                      => [pt/seg/first/last/usable/weight ...]   real Traverse + Weights
+//	world <kind> [points] [w=p,p,.. ...]       => [pt/seg/first/last/usable/weight ...]   real Traverse + Weights; paths
 //	search <origin> <max> zu=<0|1> bf=[p:d..]  => [p:d:route ...]    NewShortestPathSearchFromPoint+ExpandSearch,
 //	                                                                  PointDistances, AllRoutes, BuildPath
 //	searchto <origin> <to> <max> zu=.. bf=[..] => [p:d:route ...]    ...+ExpandSearchTo (= ComputeShortestPath)
-//	access <origin> <max> zu=.. bf=[..]        => [p:d ...] | [seg:n ...]   ComputeAccessibility: distances of the points the
-//	                                                                  search reached, and the per-segment path counts
+//	access <origin> <max> zu=.. bf=[..]        => [p:d ...] | [seg:n ...] | [q ...]   ComputeAccessibility: distances of the
+//	                                              points the search reached, per-segment path counts, interpolated points
 //
 // bf = in-harness Bellman-Ford over the dumped Traverse adjacency (usable segments), no limit.
 // zu = "some feature referencing the origin is usable" (the connectivity probe of
@@ -258,7 +258,15 @@ func renderAccess(o b6.FeatureID, max float64, weights graph.Weights, w b6.World
 	for _, k := range hx.SortedKeys(cm) {
 		cs = append(cs, fmt.Sprintf("%s:%d", k, cm[k]))
 	}
-	return hx.List(ds) + " | " + hx.List(cs)
+	// the other keys of the map: mid-segment points that got an interpolated distance
+	var interp []string
+	for id := range dist {
+		if _, ok := reached[id]; !ok {
+			interp = append(interp, ptName(id))
+		}
+	}
+	sort.Strings(interp)
+	return hx.List(ds) + " | " + hx.List(cs) + " | " + hx.List(interp)
 }
 
 // zeroUsable mirrors the connectivity probe of NewShortestPathSearchFromPoint (after fix
@@ -318,7 +326,18 @@ func runWorld(c *hx.Ctx, p plan) {
 		names = append(names, ptName(id))
 	}
 	es, adj := dumpAdjacency(w, p.weights, pts)
-	c.Op("world "+p.kind+" "+hx.List(names), adj)
+	// the point sequence of every path as the world has it (a builder may have inverted it)
+	var paths []string
+	for _, way := range p.net.ways {
+		if f, ok := w.FindFeatureByID(ingest.FromOSMWayID(way.ID)).(b6.PhysicalFeature); ok && f != nil {
+			var ns []string
+			for i := 0; i < f.GeometryLen(); i++ {
+				ns = append(ns, ptName(f.Reference(i).Source()))
+			}
+			paths = append(paths, fmt.Sprintf("w%d=%s", way.ID, strings.Join(ns, ",")))
+		}
+	}
+	c.Op("world "+p.kind+" "+hx.List(names)+" "+hx.List(paths), adj)
 	c.Note("world:" + p.kind)
 	c.Note(fmt.Sprintf("points:%d", len(pts)))
 	c.Note(fmt.Sprintf("edges:%d", len(es)/4*4))
